@@ -60,6 +60,10 @@ CHECKS = {
          "Fault-free schedules from the initial state and from the state left by a seeded faulty prefix; 60 simulated seconds after the last fault exactly one leader must exist and entries appended at it afterwards must be committed on every node within a further 35 simulated seconds.",
          "Only timer configurations in which every node's election timeout fits inside the term timeout. Known finding: reconcile loop without progress (ghost monitor G10).", "6/C30"),
 
+ "C31": ("srvsim", "exploration", "deterministic simulation: the real server in-process; seeded start order of the execution tasks of concurrently committed actions (H6 hook) compared with sequential execution",
+         "2-6 conflicting cluster actions are committed before any execution task runs; the simulator draws how long each execution task waits before starting; announced execution order must be strictly increasing, results and observable state must equal sequential execution of the same log on a second server, and a restart must change nothing.",
+         "Single-node server on a current_thread tokio runtime; only the task start order exposed by the hook is explored. Reference = same code executed one action at a time.", "6/C31"),
+
  "C04": ("dbsim", "exploration", "deterministic simulation: seeded storage histories with clean restarts, I/O noise and forced contended reads, checked operation by operation against a byte-level reference model",
          "Seeded search over storage-operation histories on all three back-ends; after every operation every live value is read back and compared with the model, removed values must be unreadable, and after defragmentation / restart the file must hold no unused space.",
          "Valid requests only; fault-free configuration (the crash configuration is C01). The model is 60 lines and mirrors the documented semantics of insert-at/move/resize.", "6/C04"),
